@@ -767,7 +767,7 @@ func c17Guarded(info *types.Info, stack []ast.Node, loopIdx int, ctx types.Objec
 					rx = s.Rhs[0]
 				}
 			}
-			if rx != nil && c17IsCtxDone(info, rx, ctx, defs) && c17Leaves(cc.Body) {
+			if rx != nil && c17IsCtxDone(info, rx, ctx, defs) && c17LeavesSelectArm(cc.Body) {
 				return true
 			}
 		}
@@ -876,6 +876,18 @@ func c17Leaves(list []ast.Stmt) bool {
 		return s.Tok == token.BREAK || s.Tok == token.GOTO
 	}
 	return false
+}
+
+// c17LeavesSelectArm: like c17Leaves for the body of a select arm, where an unlabelled `break`
+// only leaves the select (the loop goes on and the callback is invoked again).
+func c17LeavesSelectArm(list []ast.Stmt) bool {
+	if len(list) == 0 {
+		return false
+	}
+	if b, ok := list[len(list)-1].(*ast.BranchStmt); ok && b.Tok == token.BREAK && b.Label == nil {
+		return false
+	}
+	return c17Leaves(list)
 }
 
 // c17Discipline checks, for function body `body` (of fd or of a function literal) with context
